@@ -213,6 +213,36 @@ def emit(repo, spec, H):
     env4.update(H.defines(repo, f4))
     out.append("(* %s: Hbitseek -- new_block = (%s) ? TRUE : FALSE *)" % (f4, " ".join(mnb.group(1).split())))
     out.append("Definition hbitseek_new_block (byte_offset block_offset : Z) : Z := %s." % H.P(e4, ["byte_offset", "block_offset"], env4).ternary_all())
+    # 8. the "restart from the beginning?" test of the stream coders' seek routines
+    for cf, fn, var, coqname in (("hdf/src/crle.c", "HCPcrle_seek", "rle_info->offset", "rle_seek_restarts"),
+                                 ("hdf/src/cskphuff.c", "HCPcskphuff_seek", "skphuff_info->offset", "skp_seek_restarts"),
+                                 ("hdf/src/cdeflate.c", "HCPcdeflate_seek", "deflate_info->offset", "deflate_seek_restarts")):
+        sbody = H.func_body(H.raw(repo, cf), fn)
+        ms = re.findall(r"if\s*\(\s*(offset\s*[<>=!]+\s*%s)\s*\)\s*\{[^{}]*?(?:need to seek from the beginning|HCI[a-z]+_init|HCI[a-z]+_term)" % re.escape(var), sbody, flags=re.S)
+        ms2 = re.findall(r"if\s*\(\s*(offset\s*[<>=!]+\s*%s)\s*\)" % re.escape(var), sbody)
+        if len(ms2) != 1:
+            raise ValueError("%s: restart test not recognised (%s)" % (fn, ms2))
+        e8 = " ".join(ms2[0].split()).replace(var, "cur")
+        out.append("(* %s: %s -- if (%s) restart from the beginning *)" % (cf, fn, " ".join(ms2[0].split())))
+        out.append("Definition %s (offset cur : Z) : Z := %s." % (coqname, H.P(e8, ["offset", "cur"], {}).ternary_all()))
+    # 9. hbitio.c Hbitwrite: the two copies of the "buffer is full" code (partial-byte path, whole-byte loop), as
+    #    normalised statement lists
+    wb = H.func_body(H.raw(repo, f4), "Hbitwrite")
+    blocks = []
+    for m9 in re.finditer(r"if\s*\(\+\+bitfile_rec->bytep\s*==\s*bitfile_rec->bytez\)\s*\{", wb):
+        i9, depth = m9.end(), 1
+        while depth and i9 < len(wb):
+            depth += {"{": 1, "}": -1}.get(wb[i9], 0)
+            i9 += 1
+        body9 = wb[m9.end():i9 - 1]
+        stm = [" ".join(x.split()) for x in re.split(r"[;{}]", body9)]
+        blocks.append([x for x in stm if x])
+    if len(blocks) != 2:
+        raise ValueError("Hbitwrite: expected two copies of the buffer-full code, found %d" % len(blocks))
+    out.append("(* %s: Hbitwrite -- the two copies of the buffer-full code *)" % f4)
+    for n9, bl in enumerate(blocks, 1):
+        out.append("Definition hbitwrite_full_block_%d : list string := [%s]." % (
+            n9, "; ".join('"%s"%%string' % x.replace('"', "'") for x in bl)))
     # 5. hbitio.c: BITNUM / DATANUM are sizeof expressions
     d4 = H.defines(repo, f4)
     for nm in ("BITNUM", "DATANUM"):
